@@ -340,17 +340,17 @@ class Pervaporation:
                 * 1000
             )
             condensation_heat_2 = (
-                self.mixture.first_component.get_vaporisation_heat(
+                self.mixture.second_component.get_vaporisation_heat(
                     conditions.permeate_temperature
                 )
-                / self.mixture.first_component.molecular_weight
+                / self.mixture.second_component.molecular_weight
                 * 1000
             )
             cooling_heat_1 = self.mixture.first_component.get_cooling_heat(
-                conditions.permeate_temperature, conditions.initial_feed_temperature
+                conditions.initial_feed_temperature, conditions.permeate_temperature
             )
             cooling_heat_2 = self.mixture.second_component.get_cooling_heat(
-                conditions.permeate_temperature, conditions.initial_feed_temperature
+                conditions.initial_feed_temperature, conditions.permeate_temperature
             )
 
         for step in range(len(time)):
@@ -1049,17 +1049,17 @@ class Pervaporation:
                 * 1000
             )
             condensation_heat_2 = (
-                self.mixture.first_component.get_vaporisation_heat(
+                self.mixture.second_component.get_vaporisation_heat(
                     conditions.permeate_temperature
                 )
-                / self.mixture.first_component.molecular_weight
+                / self.mixture.second_component.molecular_weight
                 * 1000
             )
             cooling_heat_1 = self.mixture.first_component.get_cooling_heat(
-                conditions.permeate_temperature, conditions.initial_feed_temperature
+                conditions.initial_feed_temperature, conditions.permeate_temperature
             )
             cooling_heat_2 = self.mixture.second_component.get_cooling_heat(
-                conditions.permeate_temperature, conditions.initial_feed_temperature
+                conditions.initial_feed_temperature, conditions.permeate_temperature
             )
 
         for step in range(len(time)):
